@@ -197,6 +197,11 @@ func (c *conn) readMessage() (m *Message, err error) {
 	if err != nil {
 		return nil, err
 	}
+	if c.server.ReadTimeout > 0 {
+		// The deadline was for this message. It must not linger while the
+		// handler runs: with CloseNotify the transport is read meanwhile.
+		c.rwc.SetReadDeadline(time.Time{})
+	}
 	return m, nil
 }
 
